@@ -4,6 +4,7 @@ package main
 
 import (
 	"fmt"
+	"os"
 	"go/constant"
 	"go/token"
 	"go/types"
@@ -512,9 +513,15 @@ func (f *frame) loopKeep(li *loopInfo) func(string) bool {
 		for _, in := range b.Instrs {
 			c.eng.instrMods(in, ms)
 			if ms.top {
+				if os.Getenv("GVC_DEBUG") == "loop" {
+					fmt.Fprintf(os.Stderr, "loop %d of %s: TOP because of %s at %s\n", li.ordinal, f.fn.Name(), in.String(), c.eng.posString(in.Pos()))
+				}
 				return nil
 			}
 		}
+	}
+	if os.Getenv("GVC_DEBUG") == "loop" {
+		fmt.Fprintf(os.Stderr, "loop %d of %s modifies: %v\n", li.ordinal, f.fn.Name(), ms.list())
 	}
 	return func(name string) bool { return !ms.has(name) }
 }
